@@ -203,9 +203,10 @@ def run(ctx, progs):
                     inr = any(r[0] == 'bool' and r[2] is True and match(C("GuestMemoryRegion::address_in_range", P(1), P(2)), r[1], {}) for r in facts)
                     ok = unref(t[3][0])[:2] == ('param', 2) and inr
             ctx.ob("R2.3.check_address_region", b.key, ok and len(rts) == 2, b.where(), "Some(addr) exactly on the address_in_range(addr) edge, returning its own addr")
-        D("R2.3.checked_offset_region", prov(prog, GR, "checked_offset"),
-          C("Option::and_then", C("Address::checked_add", P(2), P(3)), CLO("c")), [("c", C("GuestMemoryRegion::check_address", P(1), P(2)))],
-          want="base.checked_add(offset).and_then(|a| self.check_address(a))")
+        CA = C("Address::checked_add", P(2), P(3))
+        outcome_spec(ctx, prog, eff, "R2.3.checked_offset_region", prov(prog, GR, "checked_offset"),
+                     [(C("GuestMemoryRegion::check_address", P(1), OKP(CA)), [('discr', CA, 1)]), (NONE, [('discr', CA, 0)])],
+                     "base.checked_add(offset) is Some(a) => self.check_address(a); None => None")
         b = prov(prog, GR, "to_region_addr")
         if not b:
             ctx.ob("C02.anchor", "prov(prog, GR, 'to_region_addr')", False, "", "anchor body not found (renamed or removed): the rule cannot be evaluated — fail closed")
@@ -238,9 +239,10 @@ def run(ctx, progs):
                 cb, ct = closure_ret(prog, eff, env["c"])
                 ok = ct is not None and unref(ct)[:2] == ('param', 2) and unref(ct)[2] == "addr"
             ctx.ob("R2.3.check_address", b.key, ok, b.where(), "find_region(addr).map(|_| addr): returns its own addr")
-        D("R2.3.checked_offset", prov(prog, GM, "checked_offset"),
-          C("Option::and_then", C("Address::checked_add", P(2), P(3)), CLO("c")), [("c", C("GuestMemory::check_address", P(1), P(2)))],
-          want="base.checked_add(offset).and_then(|a| self.check_address(a))")
+        CA = C("Address::checked_add", P(2), P(3))
+        outcome_spec(ctx, prog, eff, "R2.3.checked_offset", prov(prog, GM, "checked_offset"),
+                     [(C("GuestMemory::check_address", P(1), OKP(CA)), [('discr', CA, 1)]), (NONE, [('discr', CA, 0)])],
+                     "base.checked_add(offset) is Some(a) => self.check_address(a); None => None")
         b = prov(prog, GM, "check_range")
         if not b:
             ctx.ob("C02.anchor", "prov(prog, GM, 'check_range')", False, "", "anchor body not found (renamed or removed): the rule cannot be evaluated — fail closed")
